@@ -17,10 +17,10 @@ def loop_head(fn, kind="WhileStmt"):
 
 
 def run(prog, chk):
-    policy_objects_table(prog, chk)
-    record_table(prog, chk)
-    _run(prog, chk)
-    final_result_writers(prog, chk)
+    chk.defer(policy_objects_table, prog, chk)
+    chk.defer(record_table, prog, chk)
+    chk.defer(_run, prog, chk)
+    chk.defer(final_result_writers, prog, chk)
 
 
 def _run(prog, chk):
@@ -369,8 +369,10 @@ def record_table(prog, chk):
         for dup in (0, 1):
             ov = {"isDuplicateRuleResult": lambda I, p, n, a, dup=dup: dup,
                   "KSI_RuleVerificationResult_free": lambda I, p, n, a: TOP}
+            from ksirules.interp import inline_model, unit_helpers
+            hs = unit_helpers(prog, fn, exclude={"isDuplicateRuleResult", "KSI_RuleVerificationResult_free", "KSI_RuleVerificationResult_dup"})
             I = Interp(fn, inputs={rp: Ptr("R"), "R->ruleResults": Ptr("RULELIST"), "R->policyResults": Ptr("POLICYLIST")},
-                       call_model=succeed_model(prog, ov), on_unknown="stop", prog=prog)
+                       call_model=inline_model(prog, hs, fallback=succeed_model(prog, ov)) if hs else succeed_model(prog, ov), on_unknown="stop", prog=prog)
             paths = I.run()
             chk.paths += len(paths)
             inst = "%s[%s]" % (fname, "same rule already listed" if dup else "rule not listed yet")
